@@ -60,6 +60,36 @@ def t3(rep, tier, seed):
                                       {"argv": ["mlr"] + flags + argv0, "env": env, "binary": os.path.basename(binary), "exit": got[0], "reference_exit": ref[0],
                                        "stdout_head": got[1][:300].decode(errors="replace"), "reference_stdout_head": ref[1][:300].decode(errors="replace"),
                                        "first_difference_at": next((i for i, (x, y) in enumerate(zip(got[1], ref[1])) if x != y), min(len(got[1]), len(ref[1])))}, True)
+        # the key index of wide records (built from 12 fields on) vs none: verbs that insert, rename or move fields
+        # in the middle of a record, followed by a stage that finds fields BY NAME
+        wide = os.path.join(base, "wide.csv")
+        hdr = ["k%d" % i for i in range(1, 15)]
+        with open(wide, "w") as f:
+            f.write(",".join(hdr) + "\n")
+            for r in range(1, 8):
+                f.write(",".join(("p;q;r" if i == 4 else "%d" % (r * 100 + i)) for i in range(1, 15)) + "\n")
+        lookups = ["put", "$z = $k4_2 . \"!\" . $k9 . $new . $k1 . $k14 . $k4_1"]
+        movers = [
+            ["nest", "--explode", "--values", "--across-fields", "--nested-fs", ";", "-f", "k4"],
+            ["nest", "--explode", "--values", "--across-records", "--nested-fs", ";", "-f", "k4"],
+            ["nest", "--explode", "--pairs", "--across-fields", "--nested-fs", ";", "--nested-ps", ":", "-f", "k4"],
+            ["rename", "k9,new"], ["rename", "-r", "^k1(.)$,new\\1"], ["reorder", "-f", "k9"], ["reorder", "-e", "-f", "k2"],
+            ["put", "$[[3]] = \"new\""], ["put", "$[[[3]]] = \"v\"; unset $k5; $k5 = 1"], ["put", "$* = mapexcept($*, \"k6\"); $new = 5"],
+            ["cut", "-o", "-f", "k9,k4,k1,k14"], ["cut", "-x", "-f", "k2"], ["sort-within-records"], ["sort-within-records", "-r"],
+            ["sec2gmt", "k9"], ["fill-down", "-f", "k9"], ["unsparsify", "--fill-with", "X", "-f", "new"], ["template", "-f", "k14,new,k4,k1,k9"],
+            ["sub", "-f", "k9", "0", "o"], ["split-join" if False else "cat", "-n"], ["label", "new"], ["regularize"], ["altkv" if False else "cat"],
+        ]
+        for mv in movers:
+            for second in [lookups, ["cut", "-o", "-f", "k9,new,k4_2,k1"], ["sort", "-f", "k9", "-nr", "k1"], ["count-distinct", "-f", "k9,new"], ["head", "-n", "2", "-g", "k4_1"]]:
+                argv0 = ["--icsv", "--ojson"] + mv + ["then"] + second + [wide]
+                ref = t3util.run(mlr, ["--no-hash-records"] + argv0)
+                for flags in [["--hash-records"], [], ["--hash-records", "--records-per-batch", "1"]]:
+                    got = t3util.run(mlr, flags + argv0, timeout=40)
+                    counts["variants"] += 1
+                    if got[0] != ref[0] or got[1] != ref[1]:
+                        rep.violation("spec", "stdout or exit status depends on --hash-records / --no-hash-records",
+                                      {"argv": ["mlr"] + flags + argv0, "exit": got[0], "reference_exit": ref[0],
+                                       "stdout_head": got[1][:400].decode(errors="replace"), "reference_stdout_head": ref[1][:400].decode(errors="replace")}, True)
         # early exit must terminate promptly, whatever the upstream
         for argv in [["seqgen", "--stop", "1000000000", "then", "head", "-n", "3"], ["seqgen", "--stop", "1000000000", "then", "head", "-n", "2", "then", "head", "-n", "1"],
                      ["seqgen", "--stop", "1000000000", "then", "put", "$y = $i * 2", "then", "head", "-n", "4", "then", "tac"]]:
